@@ -112,6 +112,12 @@ func seqPart(c *vf.Ctx) {
 		l.merge(c)
 	})
 	c.Extra("phase_s_seq_map_random", int(time.Since(startT).Seconds()))
+	// serix round trips with composite key/value/element types
+	vf.Parallel(16, workers, func(i int) {
+		l := newLocal()
+		l.codecCases(c.Rand(fmt.Sprintf("codec/%d", i)), c.Pick(12, 120))
+		l.merge(c)
+	})
 	// consumers that mutate the structure they iterate
 	{
 		l := newLocal()
@@ -406,6 +412,13 @@ func replay(c *vf.Ctx) {
 			r.Step, r.What = step, what
 			c.Violation("orderedmap:"+fp, "OrderedMap history: "+what, r)
 		}
+	case "codec":
+		var r codecCase
+		_ = json.Unmarshal(raw, &r)
+		if fp, what := runCodecCase(r); fp != "" {
+			r.What = what
+			c.Violation(fp, what, r)
+		}
 	case "itermut":
 		var r iterCase
 		_ = json.Unmarshal(raw, &r)
@@ -474,7 +487,7 @@ func run(c *vf.Ctx) {
 		replay(c)
 		return
 	}
-	c.SetRule("sequential: one evaluation = one history whose last step is compared with the reference model (exhaustive part: all histories up to length 3 over the ds.Set alphabet on 3 elements – Add/Delete/AddAll/DeleteAll/Replace with every subset and the set itself, Apply with every disjoint pair of subsets, Compute with every disjoint pair of at most one element each, Clear, Clone, serix round trip – and up to length 6 (quick) / 7 (thorough) over the OrderedMap alphabet on 3 keys) or one checked step of a seeded long history (6 elements; ds.Set 40 steps with all read-only methods against every subset after each step, OrderedMap 60 steps, SetArithmetic 12 calls with thresholds 1-3) or one ForEach/ForEachReverse/Range walk whose consumer mutates the structure (all combinations of up to 5 keys, keys deleted beforehand, position and action: delete current/next/later/last/earlier/first key, set new/existing key, clear); " +
+	c.SetRule("sequential: one evaluation = one history whose last step is compared with the reference model (exhaustive part: all histories up to length 3 over the ds.Set alphabet on 3 elements – Add/Delete/AddAll/DeleteAll/Replace with every subset and the set itself, Apply with every disjoint pair of subsets, Compute with every disjoint pair of at most one element each, Clear, Clone, serix round trip – and up to length 6 (quick) / 7 (thorough) over the OrderedMap alphabet on 3 keys) or one checked step of a seeded long history (6 elements; ds.Set 40 steps with all read-only methods against every subset after each step, OrderedMap 60 steps, SetArithmetic 12 calls with thresholds 1-3) or one ForEach/ForEachReverse/Range walk whose consumer mutates the structure (all combinations of up to 5 keys, keys deleted beforehand, position and action: delete current/next/later/last/earlier/first key, set new/existing key, clear) or one serix Encode/Decode round trip of a SerializableOrderedMap / ds.Set with composite key, value or element types (slices, maps, pointers to structs, nested structs, struct and array keys; 0-6 entries; empty and pre-filled destination) compared deeply with order; " +
 		"concurrent: one evaluation = one completed method combination (all 190 pairs and 1330 triples of 19 Set methods, looped on one set) or one recorded history judged by porcupine (Apply/Compute/Replace on a whole-set model; Add/Delete/Has and Set/Get/Has/Delete partitioned per key); " +
 		"distinct_nontrivial counts distinct (operation-class sequence, resulting order) signatures of sequential histories plus distinct completed method combinations")
 	stop := startProfile()
@@ -499,6 +512,8 @@ func run(c *vf.Ctx) {
 	c.Require("set:CodecSwap", 100)
 	c.Require("map:CodecSwap", 100)
 	c.Require("arith:calls", 10000)
+	c.Require("codec:two-or-more-entries", 5000)
+	c.Require("codec:non-empty-destination", 3000)
 	c.Require("itermut:consumer-delete-next", 500)
 	c.Require("itermut:consumer-clear", 500)
 	c.Require("combinations_decided", len(combos()))
